@@ -555,7 +555,17 @@ def nd_getattr(I, st, ref, name):
     elif name == "copy":
         yield st, simple(lambda I, st: st.alloc(st.get(ref).copy()))
     elif name == "flatten" or name == "ravel":
-        yield st, simple(lambda I, st: st.alloc(NdE((size(st.get(ref).shape),), st.get(ref).data)))
+        def _flat(I, st, order="C"):
+            # The model keeps the elements in LOGICAL row-major order and has no notion of memory layout: order="C" (the
+            # default) is exact for every array; "F" / "A" / "K" depend on the layout (or walk column-major) -> not modelled.
+            if order != "C":
+                raise Unsupported("ndarray.%s(order=%r): only the logical row-major order 'C' is modelled" % (name, order))
+            ee = st.get(ref)
+            ne = NdE((size(ee.shape),), list(ee.data))
+            if getattr(ee, "dtype", None) is not None:
+                ne.dtype = ee.dtype
+            return st.alloc(ne)
+        yield st, simple(_flat)
     elif name == "astype":
         def _as(I, st, t):
             ee = st.get(ref)
